@@ -66,9 +66,10 @@ def run(ctx):
     mc = (lambda *a, **k: None) if os.environ.get("VERIF_DEV_SKIP_MC") else ctx.tlc   # development aid only
     mc(sd, "FedList", "MC_FedList_full.cfg", timeout=1500,
             label="full interleaving, small instance: refinement, call bound, no duplicate merge, termination")
-    mc(sd, "FedList", "MC_FedList.cfg", timeout=1500,
-            label="reduced interleaving (internal steps eager): refinement, invariants")
+    # (the Gen configurations below also check the invariants and Refines on every path they emit)
     if ctx.thorough:
+        mc(sd, "FedList", "MC_FedList.cfg", timeout=1500,
+           label="reduced interleaving (internal steps eager): refinement, invariants")
         mc(sd, "FedList", "MC_FedList_fullmid.cfg", timeout=2400,
                 label="full interleaving, 3 clusters + unknown prefix")
         mc(sd, "FedList", "MC_FedList_big.cfg", timeout=2400, extra=["-coverage", "1"],
